@@ -183,3 +183,36 @@ def corpus(repo=None):
                 with open(os.path.join(d, fn)) as f:
                     out[os.path.join(sub, fn)] = f.read()
     return out
+
+
+_snippets = None
+
+
+def test_snippets(repo=None):
+    """Emboss source snippets embedded in the repository's own unit tests
+    (string literals passed to calls), as an additional seed corpus: they reach
+    most diagnostics of every pass.  Returns a sorted list of distinct texts."""
+    global _snippets
+    if _snippets is not None:
+        return _snippets
+    import ast
+
+    repo = repo or REPO
+    out = set()
+    for sub in ("compiler/front_end", "compiler/back_end/cpp", "compiler/util"):
+        d = os.path.join(repo, sub)
+        for fn in sorted(os.listdir(d)):
+            if not fn.endswith("_test.py"):
+                continue
+            try:
+                with open(os.path.join(d, fn)) as f:
+                    tree = ast.parse(f.read())
+            except SyntaxError:
+                continue
+            for node in ast.walk(tree):
+                if isinstance(node, ast.Constant) and isinstance(node.value, str):
+                    s = node.value
+                    if "\n" in s and len(s) < 4000 and any(k in s for k in ("struct ", "enum ", "bits ", "external ", "import ")) and ":" in s:
+                        out.add(s)
+    _snippets = sorted(out)
+    return _snippets
